@@ -66,17 +66,36 @@ pub fn run(ctx: &Ctx) {
     });
     // the two account selectors cannot be combined
     let subs_acct = ["address", "export", "public-key", "sign"];
-    ctx.sweep("selector-conflict", "both account selectors at once in the four flag/environment combinations x 4 account commands: must be refused", 16, |i| {
+    let conflict_idx = ["1", "0", "2147483647"];
+    ctx.sweep("selector-conflict", "both account selectors at once in the four flag/environment combinations x 4 account commands x index {1, 0, 2^31-1}: must be refused", 48, |i| {
+        let orig = i; let cidx = conflict_idx[(i / 16) as usize]; let i = i % 16;
         let sub = subs_acct[(i / 4) as usize]; let (ie, pe) = (i % 2 == 1, (i / 2) % 2 == 1);
         let mut cmd = Cmd::new(&[sub, "--mnemonic", GANACHE]);
-        if ie { cmd = cmd.env("ACCOUNT_INDEX", "1"); } else { cmd = cmd.arg("--account-index").arg("1"); }
+        if ie { cmd = cmd.env("ACCOUNT_INDEX", cidx); } else { cmd = cmd.arg("--account-index").arg(cidx); }
         if pe { cmd = cmd.env("HD_PATH", "m/0"); } else { cmd = cmd.arg("--hd-path").arg("m/0"); }
         if sub == "sign" { cmd = cmd.arg("raw").arg(&format!("0x{}", hex(&RAW))); }
-        let r = cmd.run(Build::Release); let shape = format!("conflict:{sub},index={},path={}", ["flag", "env"][ie as usize], ["flag", "env"][pe as usize]);
+        let r = cmd.run(Build::Release); let shape = format!("conflict:{sub},index={}{},path={}", ["flag", "env"][ie as usize], if cidx == "0" { "(=0)" } else { "" }, ["flag", "env"][pe as usize]);
         ctx.sample("selector-conflict", || serde_json::json!({"command": trunc(&cmd.shown(), 300)}));
         ctx.eval(format!("{shape}:{:?}", r.status));
-        if r.crashed() { ctx.panic_violation(format!("{P}:{sub}:conflict:{}", r.crash_kind()), r.describe(), cmd.replay("selector-conflict", i, Build::Release)) }
-        else if r.ok() || !r.stdout.is_empty() { ctx.violation(format!("{P}:{sub}:conflict:accepted"), format!("--account-index and --hd-path were combined and the command printed {:?}", trunc(&r.line(), 100)), cmd.replay("selector-conflict", i, Build::Release)) }
+        if r.crashed() { ctx.panic_violation(format!("{P}:{sub}:conflict:{}", r.crash_kind()), r.describe(), cmd.replay("selector-conflict", orig, Build::Release)) }
+        else if r.ok() || !r.stdout.is_empty() { ctx.violation(format!("{P}:{sub}:conflict:accepted"), format!("--account-index and --hd-path were combined and the command printed {:?}", trunc(&r.line(), 100)), cmd.replay("selector-conflict", orig, Build::Release)) }
+    });
+    // accounts whose key / public key / address begin with zero nibbles or zero bytes (found with the reference):
+    // a printer that drops leading zeros is only visible there
+    let mut special: Vec<(u32, &str)> = Vec::new(); let mut have = [false; 6];
+    for idx in 0..4000u32 { let k = key_of(&curve, GANACHE, "", &default_path(idx)); let kb = k.to_be(); let pk = curve.mul_g(&k).unwrap(); let ad = refmodel::eth::address_of_point(&pk); let xb = pk.0.to_be();
+        for (slot, hit, name) in [(0, kb[0] >> 4 == 0, "key-zero-nibble"), (1, kb[0] == 0, "key-zero-byte"), (2, xb[0] >> 4 == 0, "pubkey-zero-nibble"), (3, xb[0] == 0, "pubkey-zero-byte"), (4, ad[0] >> 4 == 0, "address-zero-nibble"), (5, ad[0] == 0, "address-zero-byte")] { if hit && !have[slot] { have[slot] = true; special.push((idx, name)); } }
+        if have.iter().all(|h| *h) { break; } }
+    for idx in 0..48u32 { special.push((idx, "first-48-accounts")); }
+    ctx.sweep("leading-zero-accounts", "account indices 0..=47 and the first indices whose key / public key x-coordinate / address starts with a zero nibble and with a zero byte: address, export, public-key, sign raw", (special.len() * 4) as u64, |i| {
+        let (idx, why) = special[i as usize / 4]; let sub = ["address", "export", "public-key", "sign"][i as usize % 4]; let k = key_of(&curve, GANACHE, "", &default_path(idx));
+        let mut cmd = Cmd::new(&[sub, "--mnemonic", GANACHE, "--account-index", &idx.to_string()]); if sub == "sign" { cmd = cmd.arg("raw").arg(&format!("0x{}", hex(&RAW))); }
+        let want = match sub { "address" => address_text(&curve, &k), "export" => format!("0x{}", k.to_hex64()), "public-key" => pubkey_text(&curve, &k), _ => sign_text(&curve, &k, &RAW) };
+        let r = cmd.run(Build::Release);
+        ctx.sample("leading-zero-accounts", || serde_json::json!({"command": trunc(&cmd.shown(), 300), "why": why}));
+        ctx.eval(format!("{sub}:{why}:{}", if r.ok() { "printed" } else { "refused" }));
+        if r.crashed() { ctx.panic_violation(format!("{P}:{sub}:{}", r.crash_kind()), r.describe(), cmd.replay("leading-zero-accounts", i, Build::Release)) }
+        else if r.out() != format!("{want}\n") { ctx.violation(format!("{P}:{sub}:{why}:wrong-output"), format!("printed {:?}, the standard result is {:?}", trunc(&r.line(), 150), trunc(&want, 150)), cmd.replay("leading-zero-accounts", i, Build::Release)) }
     });
     let _ = HARD;
 }
